@@ -528,6 +528,10 @@ pub struct RangeCase {
     /// B is the same value as A (a range of one value, e.g. two identical precise instants)
     #[serde(default)]
     same: bool,
+    /// (closed date-time ranges) exactly one bound carries a UTC offset: the documented "ambiguous" case, decided
+    /// by the chosen AmbiguousDtRangeParser
+    #[serde(default)]
+    mixed: bool,
 }
 
 fn check_range(c: &RangeCase, obs: &mut Obs) {
@@ -628,6 +632,70 @@ fn check_range(c: &RangeCase, obs: &mut Obs) {
                     x.s = Some(59);
                 }
                 *x = dt_norm(x.clone());
+            }
+            if c.mixed && c.form == 0 && !c.same {
+                // exactly one bound with an offset
+                match (a.tz_q, b.tz_q) {
+                    (Some(_), Some(_)) => {
+                        if c.a.y % 2 == 0 {
+                            a.tz_q = None
+                        } else {
+                            b.tz_q = None
+                        }
+                    }
+                    (None, None) => {
+                        let q = Some((c.b.y as i32 * 7 + c.a.y as i32) % 105 - 48);
+                        if c.a.y % 2 == 0 {
+                            a.tz_q = q
+                        } else {
+                            b.tz_q = q
+                        }
+                    }
+                    _ => {}
+                }
+                // ordered by the local (wall clock) bounds, which is what all three documented policies compare
+                if dt_bounds(&a).0 > dt_bounds(&b).1 {
+                    std::mem::swap(&mut a, &mut b);
+                }
+                let (ta, tb) = (dt_text(&a), dt_text(&b));
+                let txt = format!("{ta}-{tb}");
+                let pname = ["FailOnAmbiguousRange", "ToKnownTimeZone", "IgnoreTimeZone"][(c.parser % 3) as usize];
+                let which = if a.tz_q.is_some() { "offset-on-lower-bound" } else { "offset-on-upper-bound" };
+                obs.class(format!("mixed-time-zone-kinds:{pname}:{which}"));
+                let first_dash_class = txt.matches('-').count() == 2 && a.tz_q.map(|q| q < 0).unwrap_or(false) && c.parser % 3 != 0;
+                let r = match c.parser % 3 {
+                    0 => parse_datetime_range_custom::<FailOnAmbiguousRange>(txt.as_bytes()),
+                    1 => parse_datetime_range_custom::<ToKnownTimeZone>(txt.as_bytes()),
+                    _ => parse_datetime_range_custom::<IgnoreTimeZone>(txt.as_bytes()),
+                };
+                let (we, wl) = (dt_bounds(&a).0, dt_bounds(&b).1);
+                let q = a.tz_q.or(b.tz_q).unwrap_or(0) * 900;
+                let mut fails: Vec<(String, String)> = vec![];
+                match (c.parser % 3, r) {
+                    (0, Err(_)) => {}
+                    (0, Ok(r)) => fails.push((format!("C12:ambiguous date-time range accepted by FailOnAmbiguousRange:{which}"), format!("{txt:?} -> {r:?}"))),
+                    (1, Ok(DateTimeRange::TimeZone { start, end })) => {
+                        let g = |d: &chrono::DateTime<FixedOffset>| (ndt_tuple(&d.naive_local()), d.offset().local_minus_utc());
+                        if start.as_ref().map(g) != Some((we, q)) || end.as_ref().map(g) != Some((wl, q)) {
+                            fails.push((format!("C12:mixed date-time range differs from (earliest A, latest B) in the known time zone:ToKnownTimeZone:{which}"), format!("{txt:?} -> {start:?}..{end:?}, want {we:?}..{wl:?} at offset {q}s")));
+                        }
+                    }
+                    (2, Ok(DateTimeRange::Naive { start, end })) => {
+                        if start.as_ref().map(ndt_tuple) != Some(we) || end.as_ref().map(ndt_tuple) != Some(wl) {
+                            fails.push((format!("C12:mixed date-time range differs from (earliest A, latest B) with the offset discarded:IgnoreTimeZone:{which}"), format!("{txt:?} -> {start:?}..{end:?}, want {we:?}..{wl:?}")));
+                        }
+                    }
+                    (_, Ok(other)) => fails.push((format!("C12:mixed date-time range parsed into the wrong kind of range:{pname}:{which}"), format!("{txt:?} -> {other:?}"))),
+                    (_, Err(e)) => fails.push((format!("C12:valid mixed date-time range rejected:{pname}:{which}"), format!("{txt:?}: {e}"))),
+                }
+                for (sig, detail) in fails {
+                    if first_dash_class {
+                        obs.fail("C12:date-time range with a West offset in the lower bound split at the first dash", format!("[{pname}] {detail} ({sig})"));
+                    } else {
+                        obs.fail(sig, detail);
+                    }
+                }
+                return;
             }
             b.tz_q = match (a.tz_q, b.tz_q) {
                 (None, _) => None,
@@ -794,10 +862,10 @@ pub fn run(ctx: &Ctx) {
     );
     ctx.run_prop(
         "ranges",
-        "range texts A-B, A-, -B for dates, times and date-times (same time-zone kind on both bounds, full dates for date-times so the text is unambiguous; A ordered before B): parsed range == (earliest A, latest B), open ends respected; non-trivial = closed range",
+        "range texts A-B, A-, -B for dates, times and date-times (full dates for date-times so the text is unambiguous; A ordered before B): parsed range == (earliest A, latest B), open ends respected; date-time bounds share the time-zone kind, except in ~30% of closed date-time ranges where exactly one bound carries an offset and the result must follow the chosen policy's documentation (FailOnAmbiguousRange: error; ToKnownTimeZone: both bounds in the known offset; IgnoreTimeZone: naive range of the local values); non-trivial = closed range",
         || {
-            (dt_strategy(), dt_strategy(), 0u8..3, 0u8..3, 0u8..3, proptest::bool::weighted(0.2))
-                .prop_map(|(a, b, form, kind, parser, same)| RangeCase { a, b, form, kind, parser, same })
+            (dt_strategy(), dt_strategy(), 0u8..3, 0u8..3, 0u8..3, proptest::bool::weighted(0.2), proptest::bool::weighted(0.3))
+                .prop_map(|(a, b, form, kind, parser, same, mixed)| RangeCase { a, b, form, kind, parser, same, mixed })
                 .boxed()
         },
         ctx.cases(40_000, 800_000),
